@@ -21,6 +21,14 @@ def gen_traces(sc, binary, nshards, worlds, ops, features="", cfgs="default", se
         return list(ex.map(one, range(nshards)))
 
 
+def trim_unfinished(run):
+    evs = run["events"]
+    k = len(evs)
+    while k > 0 and evs[k - 1]["ev"] != "Resp":
+        k -= 1
+    run["events"] = evs[:k]
+
+
 def load_runs(path):
     """-> (runs, other) ; a run = one world with all events up to the next World line"""
     runs, other = [], []
@@ -211,6 +219,7 @@ def run_strata(sc, binary, enforce, total_worlds, ops, cfgs_core="default", nsha
     where a rejection is (stratum, run, idx, event, payload)."""
     cfgt = cfg_text(enforce)
     runs_sample = []
+    crashes = []
     stats = {}
     rejections = []
     other_all = []
@@ -237,18 +246,32 @@ def run_strata(sc, binary, enforce, total_worlds, ops, cfgs_core="default", nsha
             stats["pinned"] = dict(worlds=len(runs), ops=len(pinned), rejected=len(rej), tlc=st, op_tags={}, nontrivial=0, start_failed=0, gen_invalid=0)
         finally:
             sub.cleanup()
-    for name, (feats, share) in (strata or STRATA).items():
+    for name, spec in (strata or STRATA).items():
+        feats, share = spec[0], spec[1]
+        mode = spec[2] if len(spec) > 2 else "plain"
         if only and name not in only.split(","):
             continue
         worlds = max(1, int(total_worlds * share / nshards))
         sub = vlib.Scratch("st-" + name)
         try:
-            outs = gen_traces(sub, binary, nshards, worlds, ops, ",".join(feats), cfgs=cfgs_core if name == "core" else "default")
+            outs = gen_traces(sub, binary, nshards, worlds, ops, ",".join(feats), cfgs=cfgs_core if name.startswith("core") else "default",
+                              extra=["-mode", mode])
             runs, other = [], []
             for o, r in outs:
-                if r.timed_out or r.returncode != 0:
-                    raise vlib.MachineryError("fed driver failed (%s): %s" % (r.returncode, r.stderr[-2000:]))
+                if r.timed_out:
+                    raise vlib.MachineryError("fed driver timed out")
                 a, b = load_runs(o)
+                if r.returncode != 0:
+                    # the gateway under test took the driver process down (panic in a goroutine) or hung:
+                    # the last Req line written names the case
+                    last = None
+                    for rr in a:
+                        for e in rr["events"]:
+                            if e["ev"] == "Req":
+                                last = (rr, e)
+                    crashes.append((name, last, r.returncode, r.stderr[-6000:]))
+                    if a:
+                        trim_unfinished(a[-1])
                 runs += a
                 other += b
             nops = sum(1 for r in runs for e in r["events"] if e["ev"] == "Req")
@@ -263,14 +286,19 @@ def run_strata(sc, binary, enforce, total_worlds, ops, cfgs_core="default", nsha
                 rejections.append((name, r, idx, ev, payload))
             tags = {}
             nontrivial = 0
+            fkinds, ikinds = {}, {}
             for r in runs:
                 for i, e in enumerate(r["events"]):
                     if e["ev"] == "Req":
                         for t in e["op"].get("tags", []):
                             tags[t] = tags.get(t, 0) + 1
+                    if e["ev"] == "Fault":
+                        fkinds[e["kind"]] = fkinds.get(e["kind"], 0) + 1
+                    if e["ev"] == "Req" and e.get("invalid"):
+                        ikinds[e["invalid"]] = ikinds.get(e["invalid"], 0) + 1
                     if e["ev"] == "Plan" and len(e.get("levels", {})) >= 2 and max(e["levels"].values()) >= 1 and sum(e["levels"].values()) >= 3:
                         nontrivial += 1
-            stats[name] = dict(worlds=len(runs), ops=nops, rejected=len(rej), tlc=st, op_tags=tags, nontrivial=nontrivial,
+            stats[name] = dict(worlds=len(runs), ops=nops, rejected=len(rej), tlc=st, op_tags=tags, nontrivial=nontrivial, faults_applied=fkinds, invalid_kinds=ikinds,
                                start_failed=sum(1 for o in other if o["ev"] == "StartFailed"),
                                gen_invalid=sum(1 for o in other if o["ev"] == "GenInvalid"))
             other_all += [o for o in other if o["ev"] != "GenInvalid"]
@@ -282,4 +310,4 @@ def run_strata(sc, binary, enforce, total_worlds, ops, cfgs_core="default", nsha
                                     "operation": req["text"], "variables": req["op"]["vars"]})
         finally:
             sub.cleanup()
-    return stats, rejections, other_all, samples, runs_sample
+    return stats, rejections, other_all, samples, runs_sample, crashes
